@@ -45,6 +45,7 @@ Definition real_sid (sid : Z) : Z := if Z.leb ALIAS sid then sid - ALIAS else si
 Definition is_early (sid : Z) : bool := Z.leb ALIAS sid.
 (** flags kept in [m_reset] under special keys *)
 Definition K_ZR_TRIED : key := (-1, 0).          (* into_0rtt() succeeded *)
+Definition K_ZR_REJ : key := (-3, 0).            (* some operation reported ZeroRttRejected *)
 Definition k_marker (ep : Z) : key := (-2, ep).  (* the handshake of that connection is over *)
 Definition k_stopped (ep sid : Z) : key := (100 + ep, sid).   (* stop() called locally *)
 Definition has {A} (m : list (key * A)) (k : key) : bool := match aget m k with Some _ => true | None => false end.
@@ -183,6 +184,9 @@ Definition result_rec (s : ms) (r : list Z) : option ms :=
       (* ClosedStream from a read although this side never stopped the stream *)
       if (Z.eqb kind K_READ || Z.eqb kind K_READ_TO_END) && Z.eqb res 21 && negb (has (m_reset s) (k_stopped ep sid)) then None else
       (* an idle timeout can only happen on a lossy link *)
+      let s := if (Z.eqb res 22 && (Z.eqb kind K_WRITE || Z.eqb kind K_WRITE_ALL)) || (Z.eqb res 23 && negb (Z.eqb kind K_WRITE || Z.eqb kind K_WRITE_ALL))
+               then upd_data s (m_wr s) (m_rd s) (m_fin s) (aset (m_reset s) K_ZR_REJ 1) (m_dg s) (m_closing s) (m_ep_ok s) (m_ended s)
+               else s in
       if Z.eqb res 16 && negb (m_lossy s) then None else
       if negb (Z.eqb ok 1) then None else
       if Z.eqb kind K_WRITE || Z.eqb kind K_WRITE_ALL then
@@ -339,5 +343,10 @@ Definition monitor (i : ops) (tr : outs) : option Z :=
       if negb (m_ended s) then Some (Z.of_nat (length tr))
       (* a 0-RTT scenario (param 44) on a loss-free link must actually have started with 0-RTT *)
       else if Z.ltb 0 (param i 44 0) && Z.eqb (param i 2 0) 0 && negb (has (m_reset s) K_ZR_TRIED)
+      then Some (Z.of_nat (length tr))
+      (* the server kept its configuration: nothing may report ZeroRttRejected; it was replaced:
+         the early handles must have reported it *)
+      else if Z.eqb (param i 44 0) 1 && has (m_reset s) K_ZR_REJ then Some (Z.of_nat (length tr))
+      else if Z.eqb (param i 44 0) 2 && has (m_reset s) K_ZR_TRIED && negb (has (m_reset s) K_ZR_REJ)
       then Some (Z.of_nat (length tr)) else None
   end.
